@@ -10,19 +10,24 @@ CFG = dict(
          "retryableSync with ErrBufferFull, preallocation on and off, maxOpenedFiles 1..3 (eviction stream, rewinds kept "
          "inside the current chunk) or 1000; offsets and lengths drawn from 0, 1, size-1, size, size+1, size+2, last flushed "
          "size +-1, last append/rewind offset, multiples of the buffer size +-1, multiples of the chunk size +-1, distance to "
-         "the chunk end +-1; 15 directed scenarios (the defects found so far, repaired ones included) run first. A case is non-trivial when it has a "
+         "the chunk end +-1; 15 directed scenarios (every defect found so far, all repaired: 279f5fa readAt clamp, 09014a8 rewind truncates) run first, so that a recurrence is reported with its concrete operation sequence. A case is non-trivial when it has a "
          "successful Append, a ReadAt that returned >= 1 byte and (a successful rewind below the size, or a reopen, or data "
          "in >= 2 chunks); distinct by (options, operations, outputs)",
     trusted_base=COMMON_TB + [
-        "modelled (coq/App/Single.v, Multi.v): AppendableFile Open/Append/write/flush/sync/SetOffset/readAt/ReadAt/Size/"
-        "Offset/DiscardUpto/SwitchToReadOnlyMode/Close/Metadata/Copy with NoCompression; MultiFileAppendable Open/Append with "
-        "chunk rotation/appendableFor/ReadAt/SetOffset/DiscardUpto/Size/Offset/Flush/Sync/SwitchToReadOnlyMode/Close/Metadata/Copy. "
-        "NOT modelled: compression formats, failing OS calls (write/seek/fsync errors, so retryableSync only changes when "
+        "modelled (coq/App/Single.v, Multi.v, Fixed.v = SetOffset since 09014a8): AppendableFile Open/Append/write/flush/sync/"
+        "SetOffset (truncating unless preallocated)/readAt/ReadAt/Size/Offset/DiscardUpto/SwitchToReadOnlyMode/Close/Metadata/Copy "
+        "with NoCompression; MultiFileAppendable Open/Append with chunk rotation/appendableFor/ReadAt/SetOffset (removing the chunk "
+        "files that follow)/DiscardUpto/Size/Offset/Flush/Sync/SwitchToReadOnlyMode/Close/Metadata/Copy. "
+        "NOT modelled: compression formats, failing OS calls (write/seek/fsync/truncate/remove errors, so retryableSync only changes when "
         "the buffer is released), negative offsets, the SIEVE eviction of the multiapp handle cache (model keeps every handle; "
         "the eviction stream of the harness checks that eviction changes no output when rewinds stay in the current chunk), "
         "background prefetch (default off), remote appendables, concurrent readers",
-        "the OS file API is the boundary: a file is a byte list, Write at the file position, ReadAt returns EOF iff short, "
-        "Open finds the bytes written before Close (no crash model here; that is C03)",
+        "the OS file API is the boundary: a file is a byte list, Write at the file position, ReadAt returns EOF iff short, Truncate "
+        "cuts the list, Open finds the bytes written before Close (no crash model here; that is C03)",
+        "the full refinement theorems are for files that are not preallocated; preallocated singleapp keeps the theorems with the "
+        "premise 'no reopen / Copy while the file is longer than the offset' (the property exempts the size of preallocated files; "
+        "the harness byte-slice oracle stops at a reopen and accepts longer copies there); preallocated multiapp has no refinement "
+        "theorem, only the model/implementation tie",
         "multiapp theorems exclude retryableSync without autoSync (on ErrBufferFull multiapp.Append reports neither the offset "
         "nor the bytes the current chunk took); the model/implementation tie does cover that mode",
     ],
